@@ -1186,6 +1186,17 @@ fn boundary_cases(etype: &'static str) -> Vec<Case> {
         ));
     }
     if !z {
+        // results beyond 255 (a narrowing cast of a length / capacity / index on its way
+        // back to the script): 260 equal elements, then the one that is looked for
+        let many = vec![v(1).to_string(); 260].join(",");
+        for at in ["", "@s"] {
+            texts.push(format!(
+                "f:0:{many} p:0:{}{at} l:0{at} k:0{at} e:0{at} i:0:{}{at} ?:0:{}{at} g:0:260{at} g:0:4{at} g:0:261{at} s:0:260:0{at} i:0:{}{at} g:0:0{at}",
+                v(2), v(2), v(2), v(2)
+            ));
+        }
+    }
+    if !z {
         // element VALUES that matter to contains / index / == / get / to_vec / for:
         // for strings 0 = "", 1 = "s1", 2 = "s" (a prefix of 1), 5 = "S1", 6 = "s1 ", 3 / 7 multi-byte
         for at in ["", "@s"] {
